@@ -44,7 +44,8 @@ def nullable(t):
     return {"k": "union", "a": [prim("Null"), t]}
 
 
-def run(ctx):
+def fn_cases(ctx):
+    """every function overload on the C12 / C13 argument catalogues x argument-type variants (exact, nullable, NULL in each position, 3-way unions)"""
     ctx.tlc_ok("NumericCases", c13.CFG, workers=1, timeout=1800)
     ctx.tlc_ok("StringCases", c12.CFG % (150 if ctx.tier == "quick" else 800), workers=1, timeout=3000, heap="14g")
     q = []
@@ -81,6 +82,11 @@ def run(ctx):
                 a2 = list(args)
                 a2[pos] = {"t": "null"}
                 cases.append({"id": len(cases), "fn": fn, "args": a2, "types": wide, "variant": "union3-null@%d" % pos})
+    return cases
+
+
+def run(ctx):
+    cases = fn_cases(ctx)
     inp, out = ctx.scratch + "/c08_q.ndjson", ctx.scratch + "/c08_r.ndjson"
     ctx.write_ndjson(inp, cases)
     ctx.driver("fn-eval", ["-in", inp, "-out", out], timeout=3000)
